@@ -114,6 +114,7 @@ Lemma ca_sign_inv : forall ipf cfg c ids req for_ca now crt,
   ca_sign ipf cfg c ids req for_ca now = inr crt ->
   exists sg,
     ca_signer cfg = Some sg /\ csr_st c = CsrOk /\ (req <= ca_max_ttl cfg)%Z /\ (now < sg_not_after sg)%Z /\
+    existsb (contains_char comma) ids = false /\
     let lifetime := if (req <=? 0)%Z then ca_default_ttl cfg else req in
     crt = {| c_sans := build_san ipf (join_with comma ids);
              c_san_critical := true;
@@ -134,6 +135,7 @@ Proof.
   destruct (csr_st c) eqn:Est; try discriminate.
   destruct (ca_max_ttl cfg <? req)%Z eqn:Emax; [discriminate|].
   unfold gen_cert_template in H.
+  destruct (existsb (contains_char comma) ids) eqn:Ecomma; [discriminate|].
   destruct (sg_not_after sg <=? now)%Z eqn:Eexp; [discriminate|].
   exists sg. repeat split; try reflexivity.
   - apply Z.ltb_ge in Emax. exact Emax.
@@ -146,7 +148,30 @@ Lemma ca_sign_not_ca : forall ipf cfg c ids req now crt,
   c_is_ca crt = false /\ N.land (c_key_usage crt) 32 = 0%N /\ c_bc_valid crt = true.
 Proof.
   intros ipf cfg c ids req now crt H.
-  destruct (ca_sign_inv _ _ _ _ _ _ _ _ H) as (sg & _ & _ & _ & _ & Hc). cbv zeta in Hc. subst crt. cbn. auto.
+  destruct (ca_sign_inv _ _ _ _ _ _ _ _ H) as (sg & _ & _ & _ & _ & _ & Hc). cbv zeta in Hc. subst crt. cbn. auto.
+Qed.
+
+Lemma no_comma_forall : forall ids, existsb (contains_char comma) ids = false -> Forall (no_char comma) ids.
+Proof.
+  induction ids as [|x l IH]; cbn; intros H; constructor.
+  - apply orb_false_iff in H. exact (proj1 H).
+  - apply IH. apply orb_false_iff in H. exact (proj2 H).
+Qed.
+
+Lemma exists_comma_existsb : forall ids, Exists (fun s => contains_char comma s = true) ids ->
+  existsb (contains_char comma) ids = true.
+Proof. intros ids H. apply existsb_exists. apply Exists_exists in H. exact H. Qed.
+
+(* a subject ID with a comma is never signed: the outcome is the certificate-generation error *)
+Lemma ca_sign_comma_refused : forall ipf cfg c ids req for_ca now,
+  Exists (fun s => contains_char comma s = true) ids ->
+  exists e, ca_sign ipf cfg c ids req for_ca now = inl e.
+Proof.
+  intros ipf cfg c ids req for_ca now H. apply exists_comma_existsb in H. unfold ca_sign.
+  destruct (ca_signer cfg) as [sg|]; [|eexists; reflexivity].
+  destruct (csr_st c); try (eexists; reflexivity).
+  destruct (ca_max_ttl cfg <? req)%Z; [eexists; reflexivity|].
+  unfold gen_cert_template. rewrite H. eexists; reflexivity.
 Qed.
 
 (* TTL policy: lifetime from the issuing instant and the signer clamp *)
@@ -160,7 +185,7 @@ Lemma ca_sign_ttl : forall ipf cfg c ids req for_ca now crt,
     c_not_before crt = (now - clock_skew)%Z.
 Proof.
   intros ipf cfg c ids req for_ca now crt H.
-  destruct (ca_sign_inv _ _ _ _ _ _ _ _ H) as (sg & Hsg & _ & Hmax & Hnow & Hc). cbv zeta in Hc.
+  destruct (ca_sign_inv _ _ _ _ _ _ _ _ H) as (sg & Hsg & _ & Hmax & Hnow & _ & Hc). cbv zeta in Hc.
   exists sg. split; [exact Hsg|]. subst crt. cbn [c_not_after c_not_before].
   destruct (req <=? 0)%Z eqn:Er;
     [apply Z.leb_le in Er|apply Z.leb_gt in Er];
